@@ -117,8 +117,9 @@ mod thr {
     /// Runtime callbacks of the threaded flavour; all default to no-ops.
     #[derive(Clone, Copy)]
     pub struct Callbacks {
-        /// a runner starts (called by the spawning thread); argument: source length if known
-        pub run_begin: fn(Option<usize>),
+        /// a runner starts (called by the spawning thread); arguments: source length if known,
+        /// address and size in bytes of the concurrent iterator object
+        pub run_begin: fn(Option<usize>, *const u8, usize),
         /// the thread scope is entered
         pub scope_begin: fn(),
         /// the thread scope is left
@@ -135,7 +136,7 @@ mod thr {
 
     fn nop() {}
     fn nop1(_: usize) {}
-    fn nop_len(_: Option<usize>) {}
+    fn nop_len(_: Option<usize>, _: *const u8, _: usize) {}
 
     /// The callbacks in force; set them before starting a computation.
     pub static mut CALLBACKS: Callbacks = Callbacks {
@@ -154,7 +155,11 @@ mod thr {
     pub fn on_run_begin<I: orx_concurrent_iter::ConcurrentIterX>(iter: &I) {
         unsafe { ITER_PTR = iter as *const I as *const u8 };
         SPAWN_INDEX.store(0, Ordering::SeqCst);
-        (unsafe { CALLBACKS }.run_begin)(iter.try_get_initial_len());
+        (unsafe { CALLBACKS }.run_begin)(
+            iter.try_get_initial_len(),
+            iter as *const I as *const u8,
+            core::mem::size_of::<I>(),
+        );
     }
 
     /// Called by the spawning thread right after it has spawned its last closure.
